@@ -543,3 +543,316 @@ Proof.
       * apply Pos.eqb_eq in Ea. subst a. inversion Hfa; subst ca. left. auto.
       * right. eauto.
 Qed.
+
+(* ---- calls that neither create nor free nor re-parent ------------------------------------------------------ *)
+Record stable (h h' : heap) : Prop := mk_stable {
+  st_wins : forall a, match findw h a, findw h' a with
+                      | Some c, Some c' => w_parent c' = w_parent c /\ w_ref c' = w_ref c /\ w_closed c' = w_closed c
+                      | None, None => True
+                      | _, _ => False
+                      end;
+  st_nextw : nextw h' = nextw h
+}.
+
+Lemma stable_refl : forall h, stable h h.
+Proof. intro h. constructor; auto. intro a. destruct (findw h a); auto. Qed.
+Lemma stable_trans : forall h1 h2 h3, stable h1 h2 -> stable h2 h3 -> stable h1 h3.
+Proof.
+  intros h1 h2 h3 [W1 N1] [W2 N2]. constructor; [|congruence].
+  intro a. specialize (W1 a). specialize (W2 a).
+  destruct (findw h1 a), (findw h2 a), (findw h3 a); try contradiction; auto.
+  destruct W1 as [A1 [A2 A3]]. destruct W2 as [B1 [B2 B3]]. repeat split; congruence.
+Qed.
+Lemma rx_only_stable : forall h h', rx_only h h' -> stable h h'.
+Proof.
+  intros h h' R. constructor.
+  - intro a. rewrite (rx_only_findw h h' a R). destruct (findw h a); auto.
+  - destruct R as [_ [_ [_ [_ [E _]]]]]. exact E.
+Qed.
+Lemma links_eq_stable : forall h h', links_eq h h' ->
+  (forall a c c', findw h a = Some c -> findw h' a = Some c' -> w_ref c' = w_ref c) -> stable h h'.
+Proof.
+  intros h h' L Hr. constructor; [|apply (le_nextw h h' L)].
+  intro a. pose proof (le_wins h h' L a) as H. destruct (findw h a) as [c|] eqn:Hf, (findw h' a) as [c'|] eqn:Hf'; auto.
+  destruct H as [H1 [_ [_ [_ [H5 _]]]]]. repeat split; auto. eapply Hr; eauto.
+Qed.
+Lemma same_wins_stable : forall h h', wins h' = wins h -> nextw h' = nextw h -> stable h h'.
+Proof.
+  intros h h' Hw Hn. constructor; auto. intro a. unfold findw. rewrite Hw. destruct (PM.find a (wins h)); auto.
+Qed.
+Lemma cells_by_stable : forall h h' F, cells_by h h' F ->
+  (forall a c, findw h a = Some c -> w_parent (F a c) = w_parent c /\ w_ref (F a c) = w_ref c /\ w_closed (F a c) = w_closed c) ->
+  stable h h'.
+Proof.
+  intros h h' F CB HF. constructor; [|apply (cb_nextw h h' F CB)].
+  intro a. rewrite (cb_wins h h' F CB). destruct (findw h a) as [c|] eqn:Hf; cbn; auto.
+Qed.
+
+(* the focus pointer of one window is rewritten *)
+Lemma hinv_set_focus : forall D h p cp f,
+  hinv D h -> findw h p = Some cp ->
+  (forall x, f = Some x -> exists cx, findw h x = Some cx /\ w_parent cx = Some p) ->
+  hinv D (upd_cell h p (fun c => set_focus c f)) /\ stable h (upd_cell h p (fun c => set_focus c f)).
+Proof.
+  intros D h p cp f HI Hp Hf.
+  set (F := on p (fun c => set_focus c f)).
+  assert (CB : cells_by h (upd_cell h p (fun c => set_focus c f)) F) by apply cells_by_on.
+  assert (HF : forall a c, w_parent (F a c) = w_parent c /\ w_first (F a c) = w_first c /\ w_next (F a c) = w_next c /\
+                           w_closed (F a c) = w_closed c /\ w_isroot (F a c) = w_isroot c /\ w_ref (F a c) = w_ref c).
+  { intros a c. unfold F, on. destruct (Pos.eqb p a); cbn; auto 10. }
+  split.
+  - apply (hinv_cells_by D h _ F HI CB).
+    + intros a c Hfa. destruct (HF a c) as [H1 [_ [_ [H4 [H5 H6]]]]]. rewrite H1, H4, H5, H6. repeat split; auto.
+      * exact (hi_closed D h HI a c Hfa).
+      * intro Hd. exact (hi_ref D h HI a c Hfa Hd).
+    + intros a c Hfa. apply (kids_preserved D h _ F a c HI CB Hfa).
+      * destruct (HF a c) as [_ [H2 _]]. exact H2.
+      * intros k ck Hfk Hpk. destruct (HF k ck) as [H1 [_ [H3 _]]]. split; congruence.
+      * intros k ck Hfk Hpk. destruct (HF k ck) as [H1 _]. congruence.
+    + intros a c Hfa Hpa. destruct (HF a c) as [H1 [_ [H3 _]]]. rewrite H1 in Hpa. rewrite H3.
+      exact (hi_orphan_next D h HI a c Hfa Hpa).
+    + intros a c x Hfa Hd Hfo. unfold F, on in Hfo. destruct (Pos.eqb p a) eqn:Ea.
+      * apply Pos.eqb_eq in Ea. subst a. cbn in Hfo. destruct (Hf x Hfo) as [cx [G1 G2]]. exists cx. split; auto.
+        destruct (HF x cx) as [H1 _]. congruence.
+      * destruct (hi_focus D h HI a c x Hfa Hd Hfo) as [cx [G1 G2]]. exists cx. split; auto.
+        destruct (HF x cx) as [H1 _]. congruence.
+    + intros q cq Hfq. destruct (hi_queue D h HI) as [ql [_ [_ Hq3]]].
+      destruct (Hq3 q cq Hfq) as [x [px [cx [G1 [G2 [G3 [G4 G5]]]]]]]. exists x, px, cx. repeat split; auto.
+      * destruct (HF x cx) as [H1 _]. congruence.
+      * eapply cells_by_anc; eauto. intros a c Ha Hfa _. destruct (HF a c) as [H1 _]. exact H1.
+  - eapply cells_by_stable; eauto. intros a c Hfa. destruct (HF a c) as [H1 [_ [_ [H4 [_ H6]]]]]. auto.
+Qed.
+
+Lemma stable_live : forall h h' a, stable h h' -> findw h a <> None -> findw h' a <> None.
+Proof.
+  intros h h' a S Hl. pose proof (st_wins h h' S a) as H.
+  destruct (findw h a), (findw h' a); try congruence; contradiction.
+Qed.
+
+Lemma stable_preserved : forall h h', stable h h' -> preserved h h'.
+Proof.
+  intros h h' S. constructor.
+  - intros a c Hf. pose proof (st_wins h h' S a) as H. rewrite Hf in H.
+    destruct (findw h' a) as [c'|]; [|contradiction]. exists c'. tauto.
+  - rewrite (st_nextw h h' S). lia.
+Qed.
+
+(* ---- tickit_window_show / tickit_window_hide ------------------------------------------------------------------ *)
+Lemma visible_upd : forall D h w cw b,
+  hinv D h -> findw h w = Some cw ->
+  let h1 := upd_cell h w (fun c => set_visible c b) in
+  hinv D h1 /\ stable h h1 /\ findw h1 w = Some (set_visible cw b) /\ links_eq h h1.
+Proof.
+  intros D h w cw b HI Hw h1.
+  assert (L : links_eq h h1) by (apply links_eq_upd_cell; intros c _; repeat split).
+  assert (Href : forall a c c', findw h a = Some c -> findw h1 a = Some c' -> w_ref c' = w_ref c).
+  { intros a c c' Hf Hf'. unfold h1 in Hf'. rewrite findw_upd_cell in Hf'. destruct (Pos.eqb w a) eqn:Ea.
+    - apply Pos.eqb_eq in Ea. subst a. rewrite Hf in Hf'. cbn in Hf'. inversion Hf'. reflexivity.
+    - congruence. }
+  split; [|split; [apply links_eq_stable; auto|split; [|exact L]]].
+  - eapply hinv_links_eq; eauto. intros a c' Hf' Hd.
+    destruct (links_eq_find_rev h h1 a c' L Hf') as [c [Hf _]]. rewrite (Href a c c' Hf Hf'). exact (hi_ref D h HI a c Hf Hd).
+  - unfold h1. rewrite findw_upd_cell_same. rewrite Hw. reflexivity.
+Qed.
+
+Lemma window_show_spec : forall D fuel w h,
+  hinv D h -> findw h w <> None ->
+  hoare (fun h1 => h1 = h) (window_show fuel w) (fun _ h' => hinv D h' /\ stable h h').
+Proof.
+  intros D fuel w h HI Hlw h0 E. subst h0. destruct (live_some h w Hlw) as [cw Hw].
+  unfold window_show. unfold bind at 1. rewrite (upd_run h w _ cw Hw).
+  destruct (visible_upd D h w cw true HI Hw) as [HI1 [S1 [Hw1 L1]]].
+  set (h1 := upd_cell h w (fun c => set_visible c true)) in *.
+  unfold bind at 1. unfold bind at 1. rewrite (getw_run h1 w _ Hw1). cbn [w_parent set_visible].
+  assert (Hmid : match (match w_parent cw with
+                        | Some p => cp <- getw p ;;
+                            match w_focus cp with
+                            | Some _ => ret tt
+                            | None => cw2 <- getw w ;;
+                                (if match w_focus cw2 with Some _ => true | None => false end || w_focused cw2
+                                 then upd p (fun c => set_focus c (Some w)) else ret tt)
+                            end
+                        | None => ret tt
+                        end) h1 with
+                 | Ok _ h2 => hinv D h2 /\ stable h1 h2
+                 | Fault _ _ => False | NoFuel => True end).
+  { destruct (w_parent cw) as [p|] eqn:Hwp; [|cbn; split; [exact HI1|apply stable_refl]].
+    assert (Hwp1 : w_parent (set_visible cw true) = Some p) by exact Hwp.
+    destruct (hinv_parent_live D h1 w _ p HI1 Hw1 Hwp1) as [cp Hp].
+    unfold bind at 1. rewrite (getw_run h1 p cp Hp).
+    destruct (w_focus cp); [cbn; split; [exact HI1|apply stable_refl]|].
+    unfold bind at 1. rewrite (getw_run h1 w _ Hw1).
+    match goal with |- match (if ?b then _ else _) h1 with _ => _ end => destruct b end;
+      [|cbn; split; [exact HI1|apply stable_refl]].
+    rewrite (upd_run h1 p _ cp Hp).
+    apply (hinv_set_focus D h1 p cp (Some w) HI1 Hp).
+    intros x Ex. inversion Ex; subst x. eauto. }
+  match goal with |- match match ?m h1 with _ => _ end with _ => _ end => destruct (m h1) as [u2 h2| |] end; [|contradiction|exact I].
+  destruct Hmid as [HI2 S2].
+  pose proof (expose_spec D fuel w h2 h2 (conj eq_refl (conj HI2 (stable_live h h2 w (stable_trans _ _ _ S1 S2) Hlw)))) as He.
+  destruct (expose fuel w h2) as [u3 h3| |]; [|contradiction|exact I].
+  split; [eapply hinv_rx_only; eauto|].
+  eapply stable_trans; [exact S1|]. eapply stable_trans; [exact S2|]. apply rx_only_stable. exact He.
+Qed.
+
+Lemma window_hide_spec : forall D fuel w h,
+  hinv D h -> findw h w <> None ->
+  hoare (fun h1 => h1 = h) (window_hide fuel w) (fun _ h' => hinv D h' /\ stable h h').
+Proof.
+  intros D fuel w h HI Hlw h0 E. subst h0. destruct (live_some h w Hlw) as [cw Hw].
+  unfold window_hide. unfold bind at 1. rewrite (upd_run h w _ cw Hw).
+  destruct (visible_upd D h w cw false HI Hw) as [HI1 [S1 [Hw1 L1]]].
+  set (h1 := upd_cell h w (fun c => set_visible c false)) in *.
+  unfold bind at 1. rewrite (getw_run h1 w _ Hw1). cbn [w_parent set_visible].
+  destruct (w_parent cw) as [p|] eqn:Hwp; [|cbn; split; [exact HI1|exact S1]].
+  assert (Hwp1 : w_parent (set_visible cw false) = Some p) by exact Hwp.
+  destruct (hinv_parent_live D h1 w _ p HI1 Hw1 Hwp1) as [cp Hp].
+  unfold bind at 1. rewrite (getw_run h1 p cp Hp).
+  unfold bind at 1.
+  assert (Hmid : match (if ptr_eqb (w_focus cp) (Some w) then setw p (set_focus cp None) else ret tt) h1 with
+                 | Ok _ h2 => hinv D h2 /\ stable h1 h2
+                 | Fault _ _ => False | NoFuel => True end).
+  { destruct (ptr_eqb (w_focus cp) (Some w)); [|cbn; split; [exact HI1|apply stable_refl]].
+    rewrite (setw_run h1 p cp _ Hp).
+    assert (Eh : upd_cell h1 p (fun _ => set_focus cp None) = upd_cell h1 p (fun c => set_focus c None)).
+    { unfold upd_cell. rewrite Hp. reflexivity. }
+    rewrite Eh. apply (hinv_set_focus D h1 p cp None HI1 Hp). intros x Ex. discriminate. }
+  destruct ((if ptr_eqb (w_focus cp) (Some w) then setw p (set_focus cp None) else ret tt) h1) as [u2 h2| |]; [|contradiction|exact I].
+  destruct Hmid as [HI2 S2].
+  assert (Hlp2 : findw h2 p <> None) by (apply (stable_live h1 h2 p S2); congruence).
+  pose proof (expose_spec D fuel p h2 h2 (conj eq_refl (conj HI2 Hlp2))) as He.
+  destruct (expose fuel p h2) as [u3 h3| |]; [|contradiction|exact I].
+  split; [eapply hinv_rx_only; eauto|].
+  eapply stable_trans; [exact S1|]. eapply stable_trans; [exact S2|]. apply rx_only_stable. exact He.
+Qed.
+
+(* ---- tickit_window_take_focus: _focus_lost / _focus_gained ------------------------------------------------------ *)
+Definition flags_only (h h' : heap) : Prop :=
+  links_eq h h' /\ forall a c c', findw h a = Some c -> findw h' a = Some c' -> w_ref c' = w_ref c.
+
+Lemma flags_only_refl : forall h, flags_only h h.
+Proof. intro h. split; [apply links_eq_refl|]. intros a c c' H1 H2. congruence. Qed.
+Lemma flags_only_trans : forall h1 h2 h3, flags_only h1 h2 -> flags_only h2 h3 -> flags_only h1 h3.
+Proof.
+  intros h1 h2 h3 [L1 R1] [L2 R2]. split; [eapply links_eq_trans; eauto|].
+  intros a c c' H1 H3. destruct (links_eq_find h1 h2 a c L1 H1) as [c2 [H2 _]].
+  rewrite (R2 a c2 c' H2 H3). apply (R1 a c c2 H1 H2).
+Qed.
+Lemma flags_only_hinv : forall D h h', hinv D h -> flags_only h h' -> hinv D h'.
+Proof.
+  intros D h h' HI [L R]. eapply hinv_links_eq; eauto. intros a c' Hf' Hd.
+  destruct (links_eq_find_rev h h' a c' L Hf') as [c [Hf _]]. rewrite (R a c c' Hf Hf'). exact (hi_ref D h HI a c Hf Hd).
+Qed.
+Lemma flags_only_stable : forall h h', flags_only h h' -> stable h h'.
+Proof. intros h h' [L R]. apply links_eq_stable; auto. Qed.
+Lemma flags_only_upd : forall h a f, (forall c, same_links c (f c) /\ w_ref (f c) = w_ref c) -> flags_only h (upd_cell h a f).
+Proof.
+  intros h a f Hf. split; [apply links_eq_upd_cell; intros c _; apply Hf|].
+  intros b c c' H1 H2. rewrite findw_upd_cell in H2. destruct (Pos.eqb a b) eqn:E.
+  - apply Pos.eqb_eq in E. subst b. rewrite H1 in H2. cbn in H2. inversion H2. apply Hf.
+  - congruence.
+Qed.
+
+Lemma focus_lost_spec : forall fuel w h,
+  hinv [] h -> findw h w <> None ->
+  hoare (fun h1 => h1 = h) (focus_lost fuel w) (fun _ h' => flags_only h h').
+Proof.
+  induction fuel as [|f IH]; intros w h HI Hlw h0 E; subst h0; cbn [focus_lost]; [exact I|].
+  destruct (live_some h w Hlw) as [c Hw].
+  unfold bind at 1. rewrite (getw_run h w c Hw). unfold bind at 1.
+  assert (Hsub : match (match w_focus c with Some fc => focus_lost f fc | None => ret tt end) h with
+                 | Ok _ h1 => flags_only h h1 | Fault _ _ => False | NoFuel => True end).
+  { destruct (w_focus c) as [fc|] eqn:Hfo; [|cbn; apply flags_only_refl].
+    destruct (hi_focus [] h HI w c fc Hw (fun x => x) Hfo) as [cf [Hfc _]].
+    apply (IH fc h HI); [congruence|reflexivity]. }
+  destruct ((match w_focus c with Some fc => focus_lost f fc | None => ret tt end) h) as [u h1| |]; [|contradiction|exact I].
+  destruct (links_eq_find h h1 w c (proj1 Hsub) Hw) as [c2 [Hw2 _]].
+  unfold bind at 1. rewrite (getw_run h1 w c2 Hw2).
+  destruct (w_focused c2); [|cbn; exact Hsub].
+  rewrite (setw_run h1 w c2 _ Hw2).
+  eapply flags_only_trans; [exact Hsub|].
+  assert (Eh : upd_cell h1 w (fun _ => set_focused c2 false) = upd_cell h1 w (fun c => set_focused c false)).
+  { unfold upd_cell. rewrite Hw2. reflexivity. }
+  rewrite Eh. apply flags_only_upd. intro c0. split; [repeat split|reflexivity].
+Qed.
+
+Lemma stable_anc : forall h h' a b, stable h h' -> anc h a b -> anc h' a b.
+Proof.
+  intros h h' a b S Ha. induction Ha as [a c Hf | a c p b Hf Hp Ha IH].
+  - pose proof (st_wins h h' S a) as H. rewrite Hf in H. destruct (findw h' a) as [c'|] eqn:Hf'; [|contradiction].
+    eapply anc_refl; eauto.
+  - pose proof (st_wins h h' S a) as H. rewrite Hf in H. destruct (findw h' a) as [c'|] eqn:Hf'; [|contradiction].
+    destruct H as [H1 _]. eapply anc_step; eauto. congruence.
+Qed.
+
+Lemma stable_child : forall h h' k ck p, stable h h' -> findw h k = Some ck -> w_parent ck = Some p ->
+  exists ck', findw h' k = Some ck' /\ w_parent ck' = Some p.
+Proof.
+  intros h h' k ck p S Hf Hp. pose proof (st_wins h h' S k) as H. rewrite Hf in H.
+  destruct (findw h' k) as [c'|]; [|contradiction]. exists c'. split; auto. destruct H as [H1 _]. congruence.
+Qed.
+
+Lemma focus_gained_spec : forall fuel w child h,
+  hinv [] h -> anc h w root ->
+  (forall ch, child = Some ch -> exists cch, findw h ch = Some cch /\ w_parent cch = Some w) ->
+  hoare (fun h1 => h1 = h) (focus_gained fuel w child) (fun _ h' => hinv [] h' /\ stable h h').
+Proof.
+  induction fuel as [|f IH]; intros w child h HI Hanc Hch h0 E; subst h0; cbn [focus_gained]; [exact I|].
+  pose proof (anc_live_l h w root Hanc) as Hlw. destruct (live_some h w Hlw) as [c Hw].
+  unfold bind at 1. rewrite (getw_run h w c Hw). unfold bind at 1.
+  (* the previously focused child loses the focus *)
+  assert (H1 : match (match w_focus c, child with
+                      | Some fc, Some ch => if negb (Pos.eqb fc ch) then focus_lost f fc else ret tt
+                      | _, _ => ret tt end) h with
+               | Ok _ h1 => flags_only h h1 | Fault _ _ => False | NoFuel => True end).
+  { destruct (w_focus c) as [fc|] eqn:Hfo; [|cbn; apply flags_only_refl].
+    destruct child as [ch|]; [|cbn; apply flags_only_refl].
+    destruct (negb (Pos.eqb fc ch)); [|cbn; apply flags_only_refl].
+    destruct (hi_focus [] h HI w c fc Hw (fun x => x) Hfo) as [cf [Hfc _]].
+    apply (focus_lost_spec f fc h HI); [congruence|reflexivity]. }
+  match goal with |- match match ?m h with _ => _ end with _ => _ end => destruct (m h) as [u1 h1| |] end; [|contradiction|exact I].
+  pose proof (flags_only_hinv [] h h1 HI H1) as HI1. pose proof (flags_only_stable h h1 H1) as S1.
+  destruct (links_eq_find h h1 w c (proj1 H1) Hw) as [c1 [Hw1 [Hp1 _]]].
+  unfold bind at 1. rewrite (getw_run h1 w c1 Hw1). unfold bind at 1.
+  (* upwards, or the restore request at the root *)
+  assert (H2 : match (match w_parent c1 with
+                      | Some p => if w_visible c1 then focus_gained f p (Some w) else ret tt
+                      | None => root0 <- get_root f w ;; request_restore root0 end) h1 with
+               | Ok _ h2 => hinv [] h2 /\ stable h1 h2 | Fault _ _ => False | NoFuel => True end).
+  { pose proof (stable_anc h h1 w root S1 Hanc) as Hanc1.
+    destruct (w_parent c1) as [p|] eqn:Hpp.
+    - destruct (w_visible c1); [|cbn; split; [exact HI1|apply stable_refl]].
+      apply (IH p (Some w) h1 HI1); [| |reflexivity].
+      + inversion Hanc1 as [a' c' Hf' | a' c' p0 b Hf' Hp' Hap]; subst.
+        * rewrite Hw1 in Hf'. inversion Hf'; subst c'. rewrite (hi_root_parent [] h1 HI1 c1 Hw1) in Hpp. discriminate.
+        * rewrite Hw1 in Hf'. inversion Hf'; subst c'. rewrite Hpp in Hp'. inversion Hp'; subst p0. exact Hap.
+      + intros ch Ech. inversion Ech; subst ch. eauto.
+    - assert (Ew : root = w) by exact (anc_top h1 w root c1 Hanc1 Hw1 Hpp). subst w.
+      unfold bind at 1. pose proof (get_root_spec [] f root h1 (conj HI1 Hanc1)) as Hgr.
+      destruct (get_root f root h1) as [r h1'| |]; [|contradiction|exact I].
+      destruct Hgr as [Eh Er]. subst h1' r.
+      assert (Hir : w_isroot c1 = true) by (rewrite (hi_isroot [] h1 HI1 root c1 Hw1); apply Pos.eqb_refl).
+      pose proof (request_restore_spec [] root h1 h1 (conj eq_refl (conj HI1 (ex_intro _ c1 (conj Hw1 Hir))))) as Hrr.
+      destruct (request_restore root h1) as [u h2| |]; [|contradiction|exact I].
+      split; [eapply hinv_rx_only; eauto|apply rx_only_stable; exact Hrr]. }
+  match goal with |- match match ?m h1 with _ => _ end with _ => _ end => destruct (m h1) as [u2 h2| |] end; [|contradiction|exact I].
+  destruct H2 as [HI2 S2].
+  assert (S02 : stable h h2) by (eapply stable_trans; eauto).
+  assert (Hlw2 : findw h2 w <> None) by (apply (stable_live h h2 w S02); exact Hlw).
+  destruct (live_some h2 w Hlw2) as [c2 Hw2].
+  unfold bind at 1.
+  (* the focused flag *)
+  assert (H3 : match (match child with None => upd w (fun c => set_focused c true) | Some _ => ret tt end) h2 with
+               | Ok _ h3 => flags_only h2 h3 | Fault _ _ => False | NoFuel => True end).
+  { destruct child; [cbn; apply flags_only_refl|].
+    rewrite (upd_run h2 w _ c2 Hw2). apply flags_only_upd. intro c0. split; [repeat split|reflexivity]. }
+  match goal with |- match match ?m h2 with _ => _ end with _ => _ end => destruct (m h2) as [u3 h3| |] end; [|contradiction|exact I].
+  pose proof (flags_only_hinv [] h2 h3 HI2 H3) as HI3. pose proof (flags_only_stable h2 h3 H3) as S3.
+  assert (S03 : stable h h3) by (eapply stable_trans; eauto).
+  assert (Hlw3 : findw h3 w <> None) by (apply (stable_live h h3 w S03); exact Hlw).
+  destruct (live_some h3 w Hlw3) as [c3 Hw3].
+  rewrite (upd_run h3 w _ c3 Hw3).
+  destruct (hinv_set_focus [] h3 w c3 child HI3 Hw3) as [HI4 S4].
+  - intros x Ex. destruct (Hch x Ex) as [cx [G1 G2]]. exact (stable_child h h3 x cx w S03 G1 G2).
+  - split; [exact HI4|eapply stable_trans; eauto].
+Qed.
